@@ -601,6 +601,8 @@ func (t *tScreen) prepareKeys() {
 	t.prepareKeyMod(KeyEnd, ModShift, ti.KeyShfEnd)
 	t.prepareKeyMod(KeyPgUp, ModShift, ti.KeyShfPgUp)
 	t.prepareKeyMod(KeyPgDn, ModShift, ti.KeyShfPgDn)
+	t.prepareKeyMod(KeyInsert, ModShift, ti.KeyShfInsert)
+	t.prepareKeyMod(KeyDelete, ModShift, ti.KeyShfDelete)
 
 	t.prepareKeyMod(KeyRight, ModCtrl, ti.KeyCtrlRight)
 	t.prepareKeyMod(KeyLeft, ModCtrl, ti.KeyCtrlLeft)
@@ -644,6 +646,8 @@ func (t *tScreen) prepareKeys() {
 	t.prepareKey(keyPasteStart, ti.PasteStart)
 	t.prepareKey(keyPasteEnd, ti.PasteEnd)
 	t.prepareXtermModifiers()
+	// after the xterm modifiers: st reuses Ctrl-Delete's sequence for kclr
+	t.prepareKey(KeyClear, ti.KeyClear)
 	t.prepareBracketedPaste()
 	t.prepareCursorStyles()
 	t.prepareUnderlines()
